@@ -34,7 +34,7 @@ TYPES = {
 
 
 def n_cases(tier):
-    return 3000 if tier == "quick" else 60000
+    return 3000 if tier == "quick" else 200000
 
 
 def worker_setup(tier, rec):
